@@ -1,0 +1,91 @@
+//go:build verif
+
+package node
+
+import (
+	hg "github.com/mosaicnetworks/babble/src/hashgraph"
+	"github.com/mosaicnetworks/babble/src/net"
+	_state "github.com/mosaicnetworks/babble/src/node/state"
+	"github.com/mosaicnetworks/babble/src/peers"
+	"github.com/mosaicnetworks/babble/src/proxy"
+	"github.com/sirupsen/logrus"
+)
+
+// VerifCore is a thin exported wrapper around the unexported core, used by the
+// /verif correspondence harness. Only compiled with the "verif" build tag.
+type VerifCore struct{ c *core }
+
+// VerifNewCore calls newCore.
+func VerifNewCore(validator *Validator, ps *peers.PeerSet, genesis *peers.PeerSet,
+	store hg.Store, cb proxy.CommitCallback, maintenance bool, logger *logrus.Entry) *VerifCore {
+	return &VerifCore{c: newCore(validator, ps, genesis, store, cb, maintenance, logger)}
+}
+
+func (v *VerifCore) Hg() *hg.Hashgraph                          { return v.c.hg }
+func (v *VerifCore) Head() string                               { return v.c.head }
+func (v *VerifCore) Seq() int                                   { return v.c.seq }
+func (v *VerifCore) Validators() *peers.PeerSet                 { return v.c.validators }
+func (v *VerifCore) Peers() *peers.PeerSet                      { return v.c.peers }
+func (v *VerifCore) TransactionPool() [][]byte                  { return v.c.transactionPool }
+func (v *VerifCore) InternalTransactionPoolLen() int            { return len(v.c.internalTransactionPool) }
+func (v *VerifCore) SelfBlockSignaturesLen() int                { return v.c.selfBlockSignatures.Len() }
+func (v *VerifCore) HeadsLen() int                              { return len(v.c.heads) }
+func (v *VerifCore) AcceptedRound() int                         { return v.c.acceptedRound }
+func (v *VerifCore) RemovedRound() int                          { return v.c.removedRound }
+func (v *VerifCore) TargetRound() int                           { return v.c.targetRound }
+func (v *VerifCore) SetAcceptedRound(r int)                     { v.c.acceptedRound = r }
+func (v *VerifCore) Busy() bool                                 { return v.c.busy() }
+func (v *VerifCore) KnownEvents() map[uint32]int                { return v.c.knownEvents() }
+func (v *VerifCore) SetHeadAndSeq() error                       { return v.c.setHeadAndSeq() }
+func (v *VerifCore) Bootstrap() error                           { return v.c.bootstrap() }
+func (v *VerifCore) ProcessSigPool() error                      { return v.c.processSigPool() }
+func (v *VerifCore) AddTransactions(txs [][]byte)               { v.c.addTransactions(txs) }
+func (v *VerifCore) AddSelfEvent(other string) error            { return v.c.addSelfEvent(other) }
+func (v *VerifCore) RecordHeads() error                         { return v.c.recordHeads() }
+func (v *VerifCore) ValidatorID() uint32                        { return v.c.validator.ID() }
+func (v *VerifCore) Sync(from uint32, evs []hg.WireEvent) error { return v.c.sync(from, evs) }
+func (v *VerifCore) EventDiff(known map[uint32]int) ([]*hg.Event, error) {
+	return v.c.eventDiff(known)
+}
+func (v *VerifCore) ToWire(evs []*hg.Event) ([]hg.WireEvent, error) { return v.c.toWire(evs) }
+func (v *VerifCore) AddInternalTransaction(tx hg.InternalTransaction) {
+	v.c.addInternalTransaction(tx)
+}
+func (v *VerifCore) FastForward(b *hg.Block, f *hg.Frame) error { return v.c.fastForward(b, f) }
+func (v *VerifCore) GetAnchorBlockWithFrame() (*hg.Block, *hg.Frame, error) {
+	return v.c.getAnchorBlockWithFrame()
+}
+func (v *VerifCore) ProcessAcceptedInternalTransactions(rr int, receipts []hg.InternalTransactionReceipt) error {
+	return v.c.processAcceptedInternalTransactions(rr, receipts)
+}
+func (v *VerifCore) SignAndInsertSelfEvent(e *hg.Event) error { return v.c.signAndInsertSelfEvent(e) }
+func (v *VerifCore) InsertEventAndRunConsensus(e *hg.Event, setWireInfo bool) error {
+	return v.c.insertEventAndRunConsensus(e, setWireInfo)
+}
+
+// VerifCore exposes the node's core.
+func (n *Node) VerifCore() *VerifCore { return &VerifCore{c: n.core} }
+
+// VerifProcessRPC calls the node's RPC dispatcher synchronously.
+func (n *Node) VerifProcessRPC(rpc net.RPC) { n.processRPC(rpc) }
+
+// VerifSetState forces the node state (without notifying the proxy).
+func (n *Node) VerifSetState(s _state.State) { n.SetState(s) }
+
+// VerifCheckSuspend calls checkSuspend.
+func (n *Node) VerifCheckSuspend() { n.checkSuspend() }
+
+// VerifAddTransaction calls the node's addTransaction.
+func (n *Node) VerifAddTransaction(tx []byte) { n.addTransaction(tx) }
+
+// VerifFastForward calls the node-level fastForward (restore + core.fastForward).
+func (n *Node) VerifFastForward() error { return n.fastForward() }
+
+// VerifSync calls the node-level sync (core.sync + processSigPool).
+func (n *Node) VerifSync(from uint32, evs []hg.WireEvent) error { return n.sync(from, evs) }
+
+// VerifInitialUndetermined returns initialUndeterminedEvents.
+func (n *Node) VerifInitialUndetermined() int { return n.initialUndeterminedEvents }
+
+// VerifMonologue calls monologue.
+func (n *Node) VerifMonologue() error { return n.monologue() }
